@@ -9,6 +9,12 @@ CHECKS = {
  "C05": dict(cat="exploration", tech="exhaustive small-scope enumeration of LP/MILP families judged by an exact rational LP/MILP oracle (Bland simplex over BigRational + integer box enumeration)",
    text="Same families as C04; every verdict (optimum value, infeasible, unbounded, non-verdict) of every solver is compared with an exact rational oracle that is itself cross-checked against vertex enumeration. Hangs and aborts are caught by subprocess isolation and reported as violations.",
    note="Trusted: exact oracle (self-checked per run), small-scope hypothesis, well-scaled menus. Clarabel non-answers are tolerated and counted, wrong answers are not.", ref="4/C04-C05"),
+ "C13": dict(cat="exploration", tech="exhaustive enumeration of continuous LinearModel families (all interleavings of variable kinds); exact rational equivalence check of original vs standard form (status, optimum, forward/backward point maps, per-variable projections)",
+   text="Every model of the families is converted by into_standard_form(); shape invariants are checked and the standard form is proved equivalent to the original on that model by exact LP: same status and optimum (after flip and offset), optimal vertex maps back to a feasible original point, original optimum maps forward with slacks from residuals, and the range of every original variable is identical in both.",
+   note="Trusted: exact rational LP oracle; naming convention $p/$m for split variables; dyadic menus so zero tolerance.", ref="4/C13"),
+ "C14": dict(cat="model_checking", tech="explicit-state exploration of the tableau simplex as a transition system (states = tableaux, transitions = pivots) with an exact rational model derived per state and conformance checked on every transition",
+   text="For every model of the families all pivot histories of phase one, solve, solve_step_by_step and raw step are recorded (hook 3). Each visited state is compared with the exact canonical tableau B^-1[A|b] computed from the standard form and the state's basis; each pivot is checked legal in the exact model (improving column, positive pivot, minimal ratio), b>=0 and objective monotone; final states are checked optimal / unboundedness genuine against the exact LP; iteration-limit on any member is a violation.",
+   note="Trusted: exact Gauss-Jordan model over BigRational, pivot recorder hook, 1e-7 conformance tolerance; families n<=4, m<=4.", ref="4/C14"),
 }
 NA_REASON = "engine not built yet in this round (planned, see DESIGN.md section 4); not claimed until its check exists"
 ALL = ["C%02d" % i for i in range(1, 21)]
